@@ -198,8 +198,8 @@ theorem withKey_allItems (h : Int → Nat) (cap : Nat) (bkt : Nat → MapSt) (hp
 
 theorem withKey_rehash (h : Int → Nat) (cap newcap : Nat) (bkt : Nat → MapSt) (hp : Placed h cap bkt) (hc : 0 < cap)
     (hn : 0 < newcap) (k : Int) :
-    withKey k (rehash h cap newcap bkt (h k % newcap)) = withKey k (bkt (h k % cap)) := by
-  unfold rehash
+    withKey k (rehashOf h newcap (allItems cap bkt) (h k % newcap)) = withKey k (bkt (h k % cap)) := by
+  unfold rehashOf
   simp only [Nat.mod_lt _ hn, if_true]
   rw [← withKey_allItems h cap bkt hp hc k]
   unfold withKey
@@ -213,32 +213,32 @@ theorem withKey_rehash (h : Int → Nat) (cap newcap : Nat) (bkt : Nat → MapSt
 /-- A resize does not change what a lookup of any key finds. -/
 theorem rehash_find (h : Int → Nat) (cap newcap : Nat) (bkt : Nat → MapSt) (hp : Placed h cap bkt) (hc : 0 < cap)
     (hn : 0 < newcap) (k : Int) :
-    mfind (rehash h cap newcap bkt (h k % newcap)) k = mfind (bkt (h k % cap)) k := by
+    mfind (rehashOf h newcap (allItems cap bkt) (h k % newcap)) k = mfind (bkt (h k % cap)) k := by
   rw [← mfind_withKey, withKey_rehash h cap newcap bkt hp hc hn, mfind_withKey]
 
 /-- No item is lost or duplicated by a resize: every item occurs in its new bucket exactly as often as it occurred
     in its old bucket. -/
 theorem rehash_count (h : Int → Nat) (cap newcap : Nat) (bkt : Nat → MapSt) (hp : Placed h cap bkt) (hc : 0 < cap)
     (hn : 0 < newcap) (e : Int × Int) :
-    (rehash h cap newcap bkt (h e.1 % newcap)).count e = (bkt (h e.1 % cap)).count e := by
+    (rehashOf h newcap (allItems cap bkt) (h e.1 % newcap)).count e = (bkt (h e.1 % cap)).count e := by
   rw [← count_withKey, withKey_rehash h cap newcap bkt hp hc hn, count_withKey]
 
-theorem rehash_place (h : Int → Nat) (oc newcap : Nat) (bkt : Nat → MapSt) : Placed h newcap (rehash h oc newcap bkt) := by
+theorem rehash_place (h : Int → Nat) (oc newcap : Nat) (bkt : Nat → MapSt) : Placed h newcap (rehashOf h newcap (allItems oc bkt)) := by
   intro b e he
-  unfold rehash at he
+  unfold rehashOf at he
   split at he
   · have := (List.mem_filter.mp he).2
     simpa using this
   · simp at he
 
 theorem rehash_uniq (h : Int → Nat) (cap newcap : Nat) (bkt : Nat → MapSt) (hp : Placed h cap bkt) (hc : 0 < cap)
-    (hn : 0 < newcap) (hu : ∀ b, KeyUniq (bkt b)) : ∀ b, KeyUniq (rehash h cap newcap bkt b) := by
+    (hn : 0 < newcap) (hu : ∀ b, KeyUniq (bkt b)) : ∀ b, KeyUniq (rehashOf h newcap (allItems cap bkt) b) := by
   intro b k
   by_cases hb : h k % newcap = b
   · subst hb
     rw [withKey_rehash h cap newcap bkt hp hc hn]
     exact hu _ k
-  · have : withKey k (rehash h cap newcap bkt b) = [] := by
+  · have : withKey k (rehashOf h newcap (allItems cap bkt) b) = [] := by
       apply List.filter_eq_nil_iff.mpr
       intro e he heq
       simp only [beq_iff_eq] at heq
